@@ -17,13 +17,13 @@ def add(pid, technique, text, note, ref):
 add("C01", "property-based differential testing (Hypothesis) against a direct-DFT reference model; 3 backends (CUDA via simulator)",
     "Generated kernel-level and API-level cases over records x starts x windows x frequencies x orders x backends are "
     "compared with a direct evaluation of the windowed DFT within a stated rounding budget and across backends; "
-    "every backend x order x mode cell must reach a quota of cases or the check exits 2. Bounded exploration, no absence claim.",
+    "every backend x order x mode cell must reach a quota of cases or the check exits 2; the backends are also called repeatedly on shared and on overlapping-view records (inputs must stay unchanged), the NumPy block loop and CUDA multi-block launches are exercised, and records with nearly identical segments probe the scatter statistic with a budget proportional to the scatter. Bounded exploration, no absence claim.",
     "Trusts NumPy complex/longdouble arithmetic for the reference and Numba's CUDA simulator as an executor of the kernel source (no GPU in the sandbox).",
     "DESIGN.md section 6 C01")
 add("C02", "property-based testing with a validity-predicate oracle + exhaustive small-scope enumeration (+ coverage-guided fuzzing in the thorough tier)",
     "Every clause of the property is an executable predicate over the plan returned by each of the four schedulers and by "
     "SpectrumAnalyzer.plan(); configurations are generated over the whole admissible domain with class quotas "
-    "(degenerate (1-olap)L<1, clamped, single-segment) and a small-N grid is enumerated exhaustively.",
+    "(degenerate (1-olap)L<1, clamped, single-segment), rational overlaps that produce exact rounding ties, the analyzer's own default overlap/window configurations, and a small-N grid enumerated exhaustively; the thorough tier adds an atheris (libFuzzer) campaign with the same oracle inside the target.",
     "Bounded by N<=2e4 (quick) / 2e5 (thorough); the predicates are typed from the property text, not from the scheduler code.",
     "DESIGN.md section 6 C02")
 
@@ -79,14 +79,14 @@ add("C10", "property-based testing against textbook formulas on synthetic result
     "DESIGN.md section 6 C10")
 add("C11", "property-based differential testing against per-segment reference DFT products + fixed-seed statistical grid",
     "XY_emp_var, XY_emp_dev, Gxx/Gxy_emp_dev and XY_M2 are recomputed from the per-segment cross products of the reference DFT on the reported segmentation "
-    "(population variance / K, zero for K=1, non-negative, unit conversion 2/(fs*sum w^2)); for white Gaussian records with 4000 independent segments the empirical "
+    "(population variance / K with a budget proportional to the scatter, zero for K=1, non-negative, unit conversion 2/(fs*sum w^2)), including nearly identical segments and segments whose products cancel exactly in the mean; for white Gaussian records with 4000 independent segments the empirical "
     "and analytic deviations must agree within 15%.",
     "Statistical clause: fixed-seed ensembles, ~6 sigma tolerance.",
     "DESIGN.md section 6 C11")
 
 add("C12", "property-based testing with an analytic leakage bound: quadrature-pair decomposition (sign-convention independent) and real-sinusoid power ratios",
     "For generated (P, L, N, sinusoid bin, analysis offsets concentrated on the first side lobes, near DC/Nyquist) the response beyond the main lobe must be at "
-    "least P-1 dB below the on-frequency response, measured through compute_single_bin (orders -1..2) and through every bin of full plans (compute()); the "
+    "least P-1 dB below the on-frequency response, measured through compute_single_bin (by L and by a non-integer fs/fres; orders -1..2), through every bin of full plans (compute()) and on records long enough for segments beyond 2^16 samples at P=195..200; the "
     "quadrature pair isolates exp(+-i theta) so no image-term allowance is needed.",
     "Premise: the specified window's own peak side lobe is within 0.94 dB of P (scan in DESIGN.md); bounded L<=8192 (quick) / 32768 (thorough).",
     "DESIGN.md section 6 C12")
@@ -135,7 +135,7 @@ add("C16", "exhaustive enumeration over all odd orders against exact rational ar
 
 add("C14", "schedule-configuration sweep (threads x chunk sizes x repetitions) against a single-thread baseline + Hypothesis RuleBasedStateMachine over analyzer call histories + generated attribute-access permutations",
     "The same analysis is repeated under drawn (thread count, parallel chunk size) pairs and must reproduce the 1-thread baseline; a state machine interleaves plan(), compute(), "
-    "single-bin requests, thread/chunk changes and attribute reads on one analyzer with invariants on the cached plan, on stored results and against fresh analyses; "
+    "single-bin requests, thread/chunk changes and attribute reads on one analyzer (both CPU backends, also analyzers with a forced bin count) with invariants on the cached plan, on stored results and against fresh analyses; "
     "fresh results are read in drawn permutations of all attribute names and compared with the canonical order.",
     "Only the configuration of the schedule is controlled, not the interleaving: a race needing a specific interleaving may be missed (a lost-update race injected by "
     "the self-test is caught within the quick budget).",
